@@ -571,7 +571,7 @@ def gen(ctx):
         if k % ctx.nshards == ctx.shard:
             yield {'phase': 'initialising', 'shape': k, 'dest': 'pinput_uninit', 'byobj': k % 2 == 0,
                    'val': [1, 0, 3, False, 7, '', None][k % 7], 'enum': True}
-    extra = 60 if ctx.tier == 'quick' else 30000
+    extra = 200 if ctx.tier == 'quick' else 30000
     for _ in range(extra):
         yield {'phase': rng.choice(PHASES), 'shape': rng.randrange(len(SHAPES)),
                'dest': rng.choice(DESTS), 'byobj': rng.random() < 0.5,
@@ -595,7 +595,7 @@ def run_shard(ctx):
     for case in gen(ctx):
         run_case(case, ctx)
     if ctx.shard == 0:
-        name_checks(ctx, ctx.rng('names'), 6 if ctx.tier == 'quick' else 60)
+        name_checks(ctx, ctx.rng('names'), 12 if ctx.tier == 'quick' else 60)
     ctx.exhaustive = True
 
 
